@@ -8,9 +8,9 @@ package c18
 // installed height, valid next headers, the account allowed to update).
 
 import (
-	"os"
 	"fmt"
 	"math/rand"
+	"os"
 	"strconv"
 	"time"
 
@@ -94,7 +94,7 @@ type inst struct {
 	ethDelay uint64
 	tmLatest int64 // latest height the client has been given (Tendermint)
 	tmDelay  uint64
-	tmOldRev bool // installed in the NEXT revision at a low height: the headers that follow are fill-ins of the previous revision
+	tmOldRev bool          // installed in the NEXT revision at a low height: the headers that follow are fill-ins of the previous revision
 	tss      *core.Account // current TSS account
 	flaw     string        // non-empty: the content was built to be uninitialisable
 }
